@@ -17,6 +17,8 @@ LEVEL = "exploration"
 RULE = ("Values from (i) the EXHAUSTIVE small domain: all JSON values with <=2 container levels and <=2 "
         "children over leaves {null,false,true,0,1,1.0,'','a'} (enumerated completely for the JSON "
         "plain, attr and buffered dict/list classes in thorough; a seeded stratified slice in quick), "
+        "plus coverage-guided campaigns (atheris/libFuzzer mutating the byte string that feeds the same "
+        "generator; edge coverage of synced_collections as feedback; all classes in thorough, two in quick), "
         "(ii) Hypothesis JSON values (depth<=6, full unicode, ints to +-2^80, finite floats incl. "
         "-0.0, 5e-324, 1e308), (iii) a boundary list; stored through every entry point {constructor, "
         "setitem, slice assignment, setdefault, update(mapping|pairs|**kw|both), reset, append, extend, "
@@ -133,7 +135,7 @@ def model_entry(cont, entry, val, prior_key):
         cont.insert(prior_key, v)
 
 
-SITUATIONS = ["plain", "buf", "new", "newbuf"]
+SITUATIONS = ["plain", "buf", "new", "newbuf", "bufgc"]
 
 
 def run_case(case):
@@ -143,8 +145,8 @@ def run_case(case):
     cname, entry, target, want, prior, val = case[:6]
     situ = case[6] if len(case) > 6 else "plain"
     ci = CLASSES[cname]
-    if situ in ("buf", "newbuf") and not ci.buffered:
-        situ = "plain" if situ == "buf" else "new"
+    if situ in ("buf", "newbuf", "bufgc") and not ci.buffered:
+        situ = "new" if situ == "newbuf" else "plain"
     if situ in ("new", "newbuf") and (target != "root" or entry == "ctor" or (want == "list" and entry == "setitem")):
         situ = "plain"      # (an empty list has no index to assign to)
     d = wm.case_dir()
@@ -205,7 +207,19 @@ def run_case(case):
                 if situ in ("buf", "newbuf"):
                     ctx = root.buffered
                     ctx.__enter__()
-                apply_entry(ci, root, res, entry, path, copy.deepcopy(val), key)
+                elif situ == "bufgc":
+                    # stored inside a backend-wide context through an object the caller does not
+                    # keep (garbage-collected before the context ends)
+                    import gc
+                    ctx = type(root).buffer_backend()
+                    ctx.__enter__()
+                    tmp = res.make(ci)
+                    apply_entry(ci, tmp, res, entry, path, copy.deepcopy(val), key)
+                    del tmp, root
+                    gc.collect()
+                    root = None
+                if root is not None:
+                    apply_entry(ci, root, res, entry, path, copy.deepcopy(val), key)
                 if ctx is not None:
                     c2, ctx = ctx, None
                     c2.__exit__(None, None, None)
@@ -267,6 +281,9 @@ def shards(tier):
     reps = 1 if tier == "quick" else 4
     s = [{"cls": c.name, "mode": "random", "rep": r} for c in ALL for r in range(reps)]
     s += [{"cls": c.name, "mode": "small"} for c in ALL]
+    # coverage-guided campaigns (atheris) over the same case function; two classes in quick
+    fz = ALL if tier == "thorough" else [c for c in ALL if c.name in ("JSONAttrDict", "BufferedJSONList")]
+    s += [{"cls": c.name, "mode": "fuzz"} for c in fz]
     return s
 
 
@@ -343,7 +360,7 @@ def run_shard(spec, seed, tier, active):
             if t != "root" or e == "ctor":
                 continue
             for situ in SITUATIONS[1:]:
-                if situ in ("buf", "newbuf") and not ci.buffered:
+                if situ in ("buf", "newbuf", "bufgc") and not ci.buffered:
                     continue
                 for v in rnd.sample(vals, min(len(vals), 40 if full else 12)):
                     todo.append((ci.name, e, t, w, ABSENT, v, situ))
@@ -359,7 +376,31 @@ def run_shard(spec, seed, tier, active):
         acc.extra["small_domain_size"] = len(vals)
         return acc.result()
 
+    if spec["mode"] == "fuzz":
+        from .. import fuzz
+        return fuzz.run_campaign("c12", spec, seed, acc)
+
     n = 250 if tier == "quick" else 2500
+    one = make_one(spec, tier, acc)
+    fail = hyp_search(one, n, seed)
+    if fail is not None:
+        acc.failures.append({"case": fail.case, "desc": fail.desc})
+    return acc.result()
+
+
+def make_one(spec, tier, acc):
+    ci = CLASSES[spec["cls"]]
+    dom = gen.Dom(ci)
+    cs = coords(ci)
+
+    def attempt(case):
+        d = _fails(case)
+        nt = _nt(case)
+        acc.case([h64(_enc_case(case))] if nt else (), _enc_case(case) if nt else None,
+                 {f"entry={case[1]}": 1, f"target={case[2]}": 1,
+                  "prior=" + ("none" if case[4] is ABSENT else "present"): 1,
+                  "situation=" + (case[6] if len(case) > 6 else "plain"): 1})
+        return d
 
     def one(data):
         draw = data.draw
@@ -378,11 +419,7 @@ def run_shard(spec, seed, tier, active):
         d = attempt(case)
         if d is not None:
             raise CaseFailure({"property": ID, "engine": "c12", "case": _enc_case(case)}, d)
-
-    fail = hyp_search(one, n, seed)
-    if fail is not None:
-        acc.failures.append({"case": fail.case, "desc": fail.desc})
-    return acc.result()
+    return one
 
 
 def replay(case):
